@@ -22,7 +22,7 @@ from pypika_tortoise import functions as fn, analytics as an, terms as T
 from pypika_tortoise.dialects import MSSQLQuery, MySQLQuery, OracleQuery, PostgreSQLQuery, SQLLiteQuery
 
 LEVEL = "proof"
-THEOREMS = ["C12_select_list_defines_aliases", "C12_filter_clauses_ignore_aliases", "C12_defining_position", "C12_operands_unaliased", "C12_operand_alias_invisible", "C12_groupby_alias_defined", "C12_unconditional_refuted", "C12_nonvacuous"]
+THEOREMS = ["C12_select_list_defines_aliases", "C12_filter_clauses_ignore_aliases", "C12_defining_position", "C12_operands_unaliased", "C12_operand_alias_invisible", "C12_groupby_alias_defined", "C12_setop_orderby_alias_defined", "C12_unconditional_refuted", "C12_nonvacuous"]
 HEADER = "From PT Require Import Base.Str Base.Codes.\nOpen Scope N_scope.\n"
 
 # classes whose renderer prints the alias whatever the position (pinned by tests/test_criterions.py for stand-alone str()):
